@@ -559,7 +559,142 @@ end Bycycle.Slots
 """ % got
     return 'SlotsKwargsShape.lean', lean
 
-GROUPS = [detect_slots, cyclepoints_slots, shape_slots, burstfeat_slots, kwargs_shape_slots]
+
+# ------------------------------------------------------------------ group plumbing (C11, C12, C13)
+def group_slots(S):
+    gp = 'bycycle/group/features.py'
+    def pool_method(fname):
+        def th():
+            fn = _func(gp, fname)
+            names = set()
+            for n in ast.walk(fn):
+                if isinstance(n, ast.Call) and isinstance(n.func, ast.Attribute) and isinstance(n.func.value, ast.Name) and n.func.value.id == 'pool':
+                    names.add(n.func.attr)
+            if not names:
+                return None
+            if len(names) != 1:
+                raise ValueError('several pool methods: %s' % sorted(names))
+            m = names.pop()
+            return {'imap': '.imap', 'map': '.map', 'imap_unordered': '.imapUnordered'}.get(m) or (_ for _ in ()).throw(ValueError('pool.%s outside grammar' % m))
+        return th
+    p2 = S.get('group.pool_method_2d', '.imap', pool_method('compute_features_2d'))
+    p3 = S.get('group.pool_method_3d', '.imap', pool_method('compute_features_3d'))
+    def unflatten():
+        fn = _func(gp, 'compute_features_3d')
+        for n in ast.walk(fn):
+            if isinstance(n, ast.Assign) and ast.unparse(n.targets[0]) == 'dfs_features[dim0_idx][dim1_idx]' and isinstance(n.value, ast.Subscript) \
+                    and ast.unparse(n.value.value) == 'df_2d':
+                def tr(e):
+                    src = ast.unparse(e)
+                    if src == 'dim0_idx': return 'i'
+                    if src == 'dim1_idx': return 'j'
+                    if src in ('np.shape(sigs)[0]', 'sigs.shape[0]', 'len(sigs)'): return 'n0'
+                    if src in ('np.shape(sigs)[1]', 'sigs.shape[1]', 'len(sigs[0])'): return 'n1'
+                    if isinstance(e, ast.Constant) and isinstance(e.value, int) and e.value >= 0: return str(e.value)
+                    if isinstance(e, ast.BinOp) and isinstance(e.op, (ast.Add, ast.Mult, ast.Sub)):
+                        return '(%s %s %s)' % (tr(e.left), {ast.Add: '+', ast.Mult: '*', ast.Sub: '-'}[type(e.op)], tr(e.right))
+                    raise ValueError('index expression outside grammar: ' + src)
+                return tr(n.value.slice)
+        return None
+    uf = S.get('group.unflatten_index', '((i * n1) + j)', unflatten)
+    def relabel_cond():
+        fn = _func(gp, 'compute_features_2d')
+        for n in ast.walk(fn):
+            if isinstance(n, ast.If):
+                m = _re.fullmatch(r'len\(kwargs\) (>|>=|==|!=) (\d+)', ast.unparse(n.test))
+                if m and any(isinstance(x, ast.For) for x in n.body):
+                    return (OPTXT[m.group(1)], int(m.group(2)))
+        return None
+    rc = S.get('group.relabel_condition', ('.gt', 1), relabel_cond)
+    def zip_cond():
+        fn = _func(gp, 'compute_features_2d')
+        for n in ast.walk(fn):
+            if isinstance(n, ast.If):
+                m = _re.fullmatch(r'len\(kwargs\) (>|>=|==|!=) (\d+)', ast.unparse(n.test))
+                if m and 'zip(sigs, kwargs)' in ast.unparse(n.body[0]):
+                    return (OPTXT[m.group(1)], int(m.group(2)))
+        return None
+    zc = S.get('group.zip_condition', ('.gt', 1), zip_cond)
+    def swap_present():
+        fn = _func(gp, 'compute_features_3d')
+        src = ast.unparse(fn)
+        a = 'sigs = np.swapaxes(sigs, 0, 1) if axis == 1 else sigs' in src
+        b = 'dfs_features = [list(dfs) for dfs in zip(*dfs_features)] if axis == 1 else dfs_features' in src
+        return (a, b)
+    sw = S.get('group.axis1_transposes', (True, True), swap_present)
+    def epoch_cmp(which):
+        def th():
+            fn = _func('bycycle/utils/dataframes.py', 'epoch_df')
+            return _compare_by_pattern(fn, r'df_features\[last_sample\]\.values', 'last_idx' if which == 'hi' else 'first_idx')
+        return th
+    ehi = S.get('epoch.upper_cmp', '.le', epoch_cmp('hi'))
+    elo = S.get('epoch.lower_cmp', '.gt', epoch_cmp('lo'))
+    lean = """/- GENERATED by harness/slots.py from /repo (bycycle/group/features.py, bycycle/utils/dataframes.py epoch_df). Do not edit. -/
+import BycycleModel.GroupTypes
+namespace Bycycle.Slots
+
+/-- which `multiprocessing.Pool` method maps the rows. -/
+def poolMethod2d : PoolMethod := %s
+def poolMethod3d : PoolMethod := %s
+/-- `df_2d[<expr>]`: position in the flattened list that is placed at [i][j] for an n0 x n1 array. -/
+def unflattenIdx (n0 n1 i j : Nat) : Nat := %s
+/-- `if len(kwargs) <cmp> <k>:` guarding the per-epoch re-labelling loop (axis=None). -/
+def relabelCmp : Cmp := %s
+def relabelLen : Nat := %d
+/-- `if len(kwargs) <cmp> <k>:` choosing zip(sigs, kwargs) over the shared option set (axis=0). -/
+def zipCmp : Cmp := %s
+def zipLen : Nat := %d
+/-- axis=1: input axes swapped before, result transposed after. -/
+def axis1SwapIn : Bool := %s
+def axis1TransposeOut : Bool := %s
+/-- epoch assignment `values <= last_idx` and `values > first_idx`. -/
+def epochUpperCmp : Cmp := %s
+def epochLowerCmp : Cmp := %s
+
+end Bycycle.Slots
+""" % (p2, p3, uf, rc[0], rc[1], zc[0], zc[1], 'true' if sw[0] else 'false', 'true' if sw[1] else 'false', ehi, elo)
+    return 'SlotsGroup.lean', lean
+
+
+# ------------------------------------------------------------------ frames (C13, C18)
+def frames_slots(S):
+    dp = 'bycycle/utils/dataframes.py'; tp = 'bycycle/utils/timeseries.py'
+    ld = lambda: _func(dp, 'limit_df')
+    lo = S.get('limit_df.lower_cmp', '.ge', lambda: _compare_by_pattern(ld(), r"df\['sample_last_' \+ side_e\]\.values", r'start \* fs'))
+    hi = S.get('limit_df.upper_cmp', '.le', lambda: _compare_by_pattern(ld(), r"df\['sample_next_' \+ side_e\]\.values", r'stop \* fs'))
+    ls = lambda: _func(tp, 'limit_signal')
+    slo = S.get('limit_signal.lower_cmp', '.ge', lambda: _compare_by_pattern(ls(), r'times', r'start'))
+    shi = S.get('limit_signal.upper_cmp', '.lt', lambda: _compare_by_pattern(ls(), r'times', r'stop'))
+    def shifted_cols():
+        cols = []
+        for n in ast.walk(ld()):
+            if isinstance(n, ast.Assign) and isinstance(n.targets[0], ast.Subscript) and ast.unparse(n.targets[0].value) == 'df':
+                key = ast.unparse(n.targets[0].slice)
+                m = _re.fullmatch(r"df\[(.+)\] - int\(fs \* start\)", ast.unparse(n.value))
+                if not m or m.group(1) != key:
+                    raise ValueError('shift statement outside grammar: ' + ast.unparse(n))
+                cols.append(key)
+        return sorted(cols) or None
+    pinned = sorted(["'sample_last_' + side_e", "'sample_next_' + side_e", "'sample_' + center_e", "'sample_zerox_rise'", "'sample_zerox_decay'", 'last_zerox'])
+    sc = S.get('limit_df.shifted_columns', pinned, shifted_cols)
+    lean = """/- GENERATED by harness/slots.py from /repo (bycycle/utils/dataframes.py limit_df, bycycle/utils/timeseries.py). Do not edit. -/
+import BycycleModel.Basic
+namespace Bycycle.Slots
+
+/-- `sample_last_side >= start*fs`, `sample_next_side <= stop*fs`. -/
+def limitLoCmp : Cmp := %s
+def limitHiCmp : Cmp := %s
+/-- `times >= start`, `times < stop`. -/
+def sigLoCmp : Cmp := %s
+def sigHiCmp : Cmp := %s
+/-- number of sample columns shifted by `int(fs*start)` under reset_indices (all six expected). -/
+def limitShiftedCols : Nat := %d
+
+end Bycycle.Slots
+""" % (lo, hi, slo, shi, len(sc))
+    return 'SlotsFrames.lean', lean
+
+GROUPS = [detect_slots, cyclepoints_slots, shape_slots, burstfeat_slots, kwargs_shape_slots, group_slots, frames_slots]
 
 def write_if_changed(path, text):
     try:
